@@ -485,6 +485,11 @@ func (w *c18world) variants(doc *jmut.Node, rngPick func(n int) int, full bool) 
 						continue
 					}
 					near = append(near, strings.ToLower(v), strings.ToUpper(v), v+"0", v+"x", v[:len(v)-1], " "+v, v+" ")
+					if len(v) > 1 {
+						// the same characters with a separator between them
+						h := len(v) / 2
+						near = append(near, v[:h]+"-"+v[h:], v[:h]+"."+v[h:], v[:h]+" "+v[h:], v[:1]+"/"+v[1:])
+					}
 				}
 				for _, v := range append(append(sample(vals, 12), "ZZZZ", "", "zz"), near...) {
 					d := doc.Clone()
